@@ -68,7 +68,7 @@ pub fn dispatch(kind: &str, v: &Value) -> Option<Outcome> {
 pub fn campaigns(ctx: &Ctx) -> Stats {
     let mut st = Stats::default();
     let t = ctx.tier;
-    let (len, total) = t.pick((12usize, 100000u64), (40, 1500000));
+    let (len, total) = t.pick((12usize, 300000u64), (40, 1500000));
     for (name, exact) in [("exact-programs", true), ("mixed-programs", false)] {
         let mut cfg = GenCfg::programs(exact);
         // several passes per program (on the same result again, on other results): gradients accumulate
